@@ -17,6 +17,8 @@ fn main() -> ExitCode {
     let only = args.get(5).map(String::as_str);
     let run: Run = match prop {
         "C02" => rosu_verif::c02::run(tier, seed, only),
+        "C04" => rosu_verif::c04::run(tier, seed, only),
+        "C07" => rosu_verif::c07::run(tier, seed, only),
         "C14" => rosu_verif::c14::run(tier, seed, only),
         "C15" => rosu_verif::c15::run(tier, seed, only),
         "C18" => rosu_verif::c18::run(tier, seed, only),
